@@ -377,7 +377,10 @@ def run_helmholtz_reject(case):
 # ---------------------------------------------------------------------------------------
 # bounds
 # ---------------------------------------------------------------------------------------
-VIAS = ["ctor_kw", "ctor_dynamics", "ctor_text_kw", "set_note_kw", "set_note_dynamics", "setter"]
+VIAS = ["ctor_kw", "ctor_dynamics", "ctor_text_kw", "set_note_kw", "set_note_dynamics", "setter",
+        # the same with a (legal) value for the other field given alongside, by keyword and in a dynamics dict
+        "ctor_kw_both", "set_note_kw_both", "set_note_dynamics_and_kw", "ctor_dynamics_and_kw"]
+OTHER_OK = {"velocity": ("channel", 7), "channel": ("velocity", 100)}
 LIMIT = {"velocity": 127, "channel": 15}
 
 
@@ -403,6 +406,16 @@ def run_bounds(case):
         elif via == "setter":
             n = Note("E", 3)
             getattr(n, "set_" + field)(value)
+        elif via == "ctor_kw_both":
+            n = Note("E", 3, **{field: value, OTHER_OK[field][0]: OTHER_OK[field][1]})
+        elif via == "set_note_kw_both":
+            n = Note("C", 4)
+            n.set_note("E", 3, **{field: value, OTHER_OK[field][0]: OTHER_OK[field][1]})
+        elif via == "set_note_dynamics_and_kw":
+            n = Note("C", 4)
+            n.set_note("E", 3, {OTHER_OK[field][0]: OTHER_OK[field][1]}, **{field: value})
+        elif via == "ctor_dynamics_and_kw":
+            n = Note("E", 3, {OTHER_OK[field][0]: OTHER_OK[field][1]}, **{field: value})
         else:
             raise engine.HarnessError("bad via %r" % via)
         err = None
@@ -417,6 +430,9 @@ def run_bounds(case):
             S.problem(site, "accepted", "%s: %s" % (type(err).__name__, err))
         elif getattr(n, field) != value:
             S.problem(site + " read back", value, getattr(n, field))
+        elif via in ("ctor_kw_both", "set_note_kw_both", "set_note_dynamics_and_kw", "ctor_dynamics_and_kw") \
+                and getattr(n, OTHER_OK[field][0]) != OTHER_OK[field][1]:
+            S.problem(site + ": the other field given alongside", OTHER_OK[field][1], getattr(n, OTHER_OK[field][0]))
         else:
             other = "channel" if field == "velocity" else "velocity"
             S.count("bounds_accepted")
